@@ -33,6 +33,7 @@ type Loc struct {
 	Lo    int
 	Hi    int
 	Path  string // dotted field names from the root
+	Key   string // LCell: override of the heap key (fields of opaque external structs)
 }
 
 // Val is a symbolic value.
@@ -193,6 +194,18 @@ func (e *Engine) keyElem(t types.Type, i int) string {
 	if _, ok := e.heapInfo[k]; !ok {
 		l := e.fl.leaves(t)[i]
 		e.regHeap(k, arrSort(SInt, arrSort(SInt, l.Sort)), "A_"+shortTypeName(t)+"_"+leafSuffix(l), "A", l.T)
+	}
+	return k
+}
+
+func (e *Engine) keyCellLoc(loc *Loc, i int) string {
+	if loc.Key == "" {
+		return e.keyCell(loc.S, i)
+	}
+	k := fmt.Sprintf("C|%s|%d", loc.Key, i)
+	if _, ok := e.heapInfo[k]; !ok {
+		l := e.fl.leaves(loc.T)[i]
+		e.regHeap(k, arrSort(SInt, l.Sort), "F_"+smtName(loc.Key)+"_"+leafSuffix(l), "C", l.T)
 	}
 	return k
 }
@@ -372,7 +385,7 @@ func (e *Engine) loadLoc(st *State, loc *Loc) []string {
 		}
 	case LCell:
 		for i := loc.Lo; i < loc.Hi; i++ {
-			out = append(out, sel(e.heapGet(st, e.keyCell(loc.S, i)), loc.Ref))
+			out = append(out, sel(e.heapGet(st, e.keyCellLoc(loc, i)), loc.Ref))
 		}
 	case LElem:
 		for i := loc.Lo; i < loc.Hi; i++ {
@@ -414,7 +427,7 @@ func (e *Engine) storeLoc(st *State, loc *Loc, leaves []string) {
 		}
 	case LCell:
 		for i := loc.Lo; i < loc.Hi; i++ {
-			k := e.keyCell(loc.S, i)
+			k := e.keyCellLoc(loc, i)
 			e.heapWrite(st, k, store(e.heapGet(st, k), loc.Ref, leaves[i-loc.Lo]), loc.Ref)
 		}
 	case LElem:
